@@ -47,6 +47,7 @@ Definition js_stmt_text (fm : bool) (en : env) (props : list string) (s : stmt) 
   | SSet t e => js_target_text fm en props t ++ " = " ++ pp_js (to_js fm en e)
   | SCallS f args => nm en f ++ "(" ++ join ", " (map (fun e => pp_js (to_js fm en e)) args) ++ ")"
   | SLCallS f args => "fn_call(" ++ nth f (e_lfuncs en) "" ++ "(" ++ join ", " (map (fun e => pp_js (to_js fm en e)) args) ++ "))"
+  | SSetObj _ _ _ _ => ""      (* object properties are outside the JavaScript theorems (js_ok_s) *)
   end.
 
 Definition js_ok_s (en : env) (props : list string) (s : stmt) : Prop :=
@@ -60,6 +61,7 @@ Definition js_ok_s (en : env) (props : list string) (s : stmt) : Prop :=
     end
   | SCallS f args => plain_call_name (nm en f) = true /\ js_ok_args en args
   | SLCallS f args => plain_call_name (nth f (e_lfuncs en) "") = true /\ js_ok_args en args
+  | SSetObj _ _ _ _ => False
   end.
 
 Lemma js_args_text fm en l : js_ok_args en l -> forall pc ind,
@@ -74,7 +76,7 @@ Qed.
 Theorem js_stmt_line fm en props s : js_ok_s en props s -> forall pc ind,
   gen_js (reify_s en props pc s) ind fm = js_line ind (js_stmt_text fm en props s).
 Proof.
-  destruct s as [t e|f args|f args]; intros Hok pc ind.
+  destruct s as [t e|f args|f args|fam pid o v]; intros Hok pc ind; [| | |destruct Hok].
   - destruct Hok as [He Ht]. cbn [reify_s js_stmt_text gen_js].
     change (String.eqb "assign" "assign") with true. cbn iota.
     rewrite (gen_js_is_pp fm en e He).
@@ -114,7 +116,7 @@ Qed.
 
 Lemma wrap_paren_reify fm en pc c : js_ok en c -> wrap_paren (reify_e en pc c) (pp_js (to_js fm en c)) = js_cond fm en c.
 Proof.
-  destruct c as [n|k|n|i|i|n|n|o x y|x|x|f args|f args|l|l]; intros Hok; unfold js_cond; cbn [reify_e]; try reflexivity.
+  destruct c as [n|k|n|i|i|n|n|o x y|x|x|f args|f args|l|l|fam pid x]; intros Hok; unfold js_cond; cbn [reify_e]; try reflexivity; try (destruct Hok; fail).
   - destruct (nth k (e_consts en) (CInt 0)); reflexivity.
   - cbn [js_ok] in Hok. destruct (nth i (e_locals en) (Leaf KLocal "" 0 true)); try contradiction. reflexivity.
   - destruct o; unfold wrap_paren; cbn [to_js js_binop pp_js]; rewrite ?starts_with_paren; reflexivity.
